@@ -519,6 +519,13 @@ impl WsClient {
             None => false,
         }
     }
+    /// a data frame with arbitrary bytes (a binary frame when they are not UTF-8)
+    pub fn send_bytes(&mut self, bytes: &[u8]) -> bool {
+        match self.stream.as_ref() {
+            Some(s) => frame::write_frame(s.endpoint(), bytes).is_ok(),
+            None => false,
+        }
+    }
     pub fn recv(&mut self, timeout_ms: u64) -> Option<String> {
         let ep = self.stream.as_ref()?.endpoint();
         let deadline = kernel::now() + timeout_ms * MS;
